@@ -130,3 +130,43 @@ def expand(fn, expr, depth=4, seen=None):
         else:
             out.append(expr)
     return out or [expr]
+
+
+def depends_on(fn, expr, at, name, depth=6):
+    """Does the value of ``expr`` at ``at`` depend on local/parameter ``name`` -- through data flow (reaching
+    definitions, transitively) or through the branch conditions under which a contributing definition is made?"""
+    from .facts import facts_at
+    seen = set()
+
+    def facts_mention(node):
+        for k, t in facts_at(fn, node):
+            try:
+                e = ast.parse(t, mode="eval").body if not t.startswith("iter:") else None
+            except SyntaxError:
+                e = None
+            if e is not None and any(isinstance(n, ast.Name) and n.id == name for n in ast.walk(e)):
+                return True
+        return False
+
+    def walk(e, where, d):
+        if d == 0:
+            return False
+        for n in ast.walk(e):
+            if isinstance(n, ast.Name) and isinstance(n.ctx, ast.Load):
+                if n.id == name:
+                    return True
+                if comprehension_binding(fn, n.id, n):
+                    continue
+                for df in defs_reaching(fn, n.id, where):
+                    if df.node is None or df.value is None:
+                        continue
+                    key = (n.id, id(df.node))
+                    if key in seen:
+                        continue
+                    seen.add(key)
+                    if facts_mention(df.node.ast):
+                        return True
+                    if walk(df.value, df.node.ast, d - 1):
+                        return True
+        return False
+    return facts_mention(at) or walk(expr, at, depth)
